@@ -608,6 +608,33 @@ def threaded_action_compared_outside(rng, s, b):
 
 
 @mutator("C05")
+def threaded_action_compared_outside_alone(rng, s, b):
+    """A NEW checkpoint whose ONLY dependency compares a threaded action from outside its thread group (typed for the
+    view from outside, where the threaded promise is a list), referenced from a checkpoint of an unthreaded action."""
+    ta = _threaded_actions(s)
+    hosts = [c for c in s["checkpoints"] if c["ctx"] is None and any(x["dep"] == ("checkpoint", c["id"]) and x["ctx"] is None for x in s["actions"])]
+    if not ta or not hosts:
+        return None
+    rng.shuffle(ta)
+    for a in ta:
+        host = rng.choice(hosts)
+        users = [x["id"] for x in s["actions"] if x["dep"] == ("checkpoint", host["id"])]
+        if any(u == a["id"] or u in b.anc.get(a["id"], set()) for u in users):
+            continue
+        paths = [(p, t) for (p, t, _) in b.paths_from(b.promise_of_action(a["id"])["type"][1]) if t in ("STRING", "NUMERIC", "BOOLEAN")]
+        if not paths:
+            continue
+        p, t = rng.choice(paths)
+        shape = {"STRING": "SStr", "NUMERIC": "SInt", "BOOLEAN": "SBool"}[t]
+        kid = max(c["id"] for c in s["checkpoints"]) + 1
+        s["checkpoints"].append({"id": kid, "alias": 500 + kid, "gate": None, "ctx": None,
+                                 "deps": [("cmp", ("act", ("action", a["id"]), list(p)), rng.choice(["CONTAINS", "DOES_NOT_CONTAIN"]), ("lit", shape, b.fresh()))]})
+        add_dep(rng, host, ("ref", ("checkpoint", kid)))
+        return "single-dependency checkpoint compares a threaded action from outside its thread group"
+    return None
+
+
+@mutator("C05")
 def second_threaded_operand_outside(rng, s, b):
     """A comparison of a thread-bound checkpoint whose LEFT operand is a threaded action in scope and whose RIGHT
     operand is a threaded action of a group that does not enclose the checkpoint; typed so that scope is the only
@@ -793,7 +820,7 @@ def edit_outside_fulfilment_context(rng, s, b):
     return "edit outside the context in which the promise is fulfilled"
 
 
-THREAD_ONLY = {"unrelated_editor_shares_checkpoint_with_inner_action", "nested_spawn_from_threaded_non_ancestor", "path_on_scalar_variable", "threaded_checkpoint_used_outside", "threaded_action_compared_outside", "second_threaded_operand_outside", "variable_used_outside",
+THREAD_ONLY = {"threaded_action_compared_outside_alone", "unrelated_editor_shares_checkpoint_with_inner_action", "nested_spawn_from_threaded_non_ancestor", "path_on_scalar_variable", "threaded_checkpoint_used_outside", "threaded_action_compared_outside", "second_threaded_operand_outside", "variable_used_outside",
                "spawn_from_non_list", "spawn_not_fulfilled_by_ancestor", "unused_thread_group",
                "variable_name_repeats_in_chain", "promise_context_mismatch", "edit_outside_fulfilment_context"}
 
